@@ -369,10 +369,17 @@ Proof.
   apply PresJ_bind'; [apply PresJ_uniq | intros n]. apply PresJ_remove_link_graph.
 Qed.
 
+Lemma PresJ_remove_ns_disconnecting X s : PresJ X (remove_ns_disconnecting s).
+Proof.
+  unfold remove_ns_disconnecting. apply PresJ_bind'; [apply PresJ_get | intros ifs].
+  apply PresJ_bind'; [apply PresJ_for_each_set; intros i _; apply PresJ_disconnect_peers_of | intros _].
+  apply PresJ_remove_ns.
+Qed.
+
 Lemma PresJ_api_remove_ns_topo X nm : PresJ X (api_remove_ns_topo nm).
 Proof.
   unfold api_remove_ns_topo. apply PresJ_bind'; [apply PresJ_get | intros all].
-  apply PresJ_bind'; [apply PresJ_uniq | intros n]. apply PresJ_remove_ns.
+  apply PresJ_bind'; [apply PresJ_uniq | intros n]. apply PresJ_remove_ns_disconnecting.
 Qed.
 
 Lemma PresJ_need_class X n c : PresJ X (need_class n c).
@@ -393,7 +400,7 @@ Proof.
   unfold api_node_remove_ns. apply PresJ_bind'; [apply PresJ_read | intros x].
   apply PresJ_bind'; [apply PresJ_guard | intros _].
   apply PresJ_bind'; [apply PresJ_get | intros ss].
-  apply PresJ_bind'; [apply PresJ_uniq | intros s]. apply PresJ_remove_ns.
+  apply PresJ_bind'; [apply PresJ_uniq | intros s]. apply PresJ_remove_ns_disconnecting.
 Qed.
 
 Lemma PresJ_api_disconnect X i c : PresJ X (api_disconnect i c).
